@@ -28,8 +28,18 @@
    variable collections and components are dictionaries; an operation never changes the identity of a component
    (an option route does not start with `name` or `stage`, a replacement definition carries the identity it
    replaces); the document is the one FlowIRConcrete holds after its constructor normalised it (every known
-   platform has an entry in `variables`).  Mutating a live reference obtained with return_copy=False after an
-   intervening query is not an operation of the interface and is not in [op]. *)
+   platform has an entry in `variables`).
+
+   Aliases and live references.  (a) Values handed TO the mutators: the repaired mutators store a deep copy, so an
+   object the caller keeps and changes later is not part of the description (MutateArg: no-op); the pinned mutators
+   stored the object itself — [pinned_op] reads the caller's change as a write through a live reference.
+   (b) Values handed OUT: every accessor returns a deep copy (MutateResult: no-op; the harness sweeps
+   get_component, get_components, get_*_variables, get_*_blueprint, raw, get_component_configuration in its other
+   modes ...) except the return_copy=False variants and add_component(insert_copy=False), which hand out / keep
+   "the actual dictionary".  get_component(False) and get_platform_*_variables(False) invalidate when they hand
+   out (the mutators built on them are the operations above); get_components(False) never invalidates.  A write
+   through such a reference at any LATER time is LiveWrite / LiveVarWrite (the description changes, the cache does
+   not); Invalidate is invalidate_cache_for_component.  [ok_hist] is the discipline under which they are safe. *)
 From Coq Require Import String Ascii List Bool ZArith Arith Lia.
 Import ListNotations.
 Require Import V.Lib.PyStr V.Lib.JTree V.Conf.Model.
@@ -103,7 +113,25 @@ Inductive op :=
   | ReplaceComp (s : Z) (n : string) (new : jv)                 (* update_component *)
   | DelComp (s : Z) (n : string)                                (* delete_component *)
   | Query (p : string) (s : Z) (n : string)                     (* get_component_configuration(.., include_default=True, platform=p) *)
-  | MutateResult.                                               (* the caller changes, in place, the configuration it was handed last *)
+  | MutateResult                                                (* the caller changes, in place, the configuration it was handed last
+                                                                   (or what any other copy-returning accessor handed it) *)
+  (* --- caller-held aliases and live references (see "aliases" below) *)
+  | MutateArg (s : Z) (n : string) (route : list string) (x : jv)
+      (* the caller changes, in place, an object it handed EARLIER to set_component_variable / set_component_option /
+         update_component (or to one of the variable setters) and still holds: it sets the entry `last route` of the
+         dictionary which, had the mutator stored the caller's object itself, would now sit at `route` of component
+         (s, n).  The repaired mutators store a private copy: nothing of the description is reachable from the
+         caller's object (no-op).  The pinned mutators stored the object: see [pinned_op]. *)
+  | LiveWrite (s : Z) (n : string) (route : list string) (x : jv)
+      (* a write through a LIVE reference to component (s, n) that is not bracketed by the accessor that handed it
+         out: get_components(return_copy=False) (never invalidates), a dictionary obtained earlier from
+         get_component(.., return_copy=False), the description given to add_component(.., insert_copy=False):
+         context = comp; for point in route[:-1]: context = context[point]; context[route[-1]] = x.
+         The description changes, the cache is not touched. *)
+  | LiveVarWrite (p : string) (var : string) (x : jv)
+      (* ref[var] = x where ref was obtained earlier from get_platform_global_variables(p, return_copy=False)
+         (the cache was cleared when the reference was handed out, not now) *)
+  | Invalidate (s : Z) (n : string).                            (* invalidate_cache_for_component((s, n)) *)
 
 (* outcome of a query *)
 Inductive qr :=
@@ -290,6 +318,22 @@ Definition mutate (d : doc) (o : op) : doc * action * obs :=
           end
       end
   | Query _ _ _ | MutateResult => (d, ANone, ODone)
+  | MutateArg _ _ _ _ => (d, ANone, ODone)
+  | LiveWrite s n r x => let '(d', _, ob) := comp_op d s n (set_route r x) in (d', ANone, ob)
+  | LiveVarWrite p var x =>
+      if known d p then (with_vars d (set_path [p; "global"; var] x (d_variables d)), ANone, ODone)
+      else (d, ANone, OExc "FlowIRPlatformUnknown")
+  | Invalidate s n => (d, AInval s n, ODone)
+  end.
+
+(* ------------------------------------------------------------------ aliases *)
+(* The pinned mutators (before the repair "mutators store private copies") kept the caller's object inside the
+   description: for that code a later in-place change of the object by the caller IS a write through a live
+   reference.  A history of the pinned code = the history with every MutateArg read as LiveWrite. *)
+Definition pinned_op (o : op) : op :=
+  match o with
+  | MutateArg s n r x => LiveWrite s n r x
+  | _ => o
   end.
 
 (* ------------------------------------------------------------------ from-scratch resolution *)
@@ -331,6 +375,7 @@ Section Matcher.
     match o with
     | Query p s n => query st p s n
     | MutateResult => (st, ODone)       (* results are copies: nothing of the object is reachable from them *)
+    | MutateArg _ _ _ _ => (st, ODone)  (* arguments are stored as copies: the same *)
     | _ => let '(d', a, ob) := mutate (s_doc st) o in
            ({| s_doc := d'; s_cache := apply_action a (s_cache st) |}, ob)
     end.
@@ -378,7 +423,22 @@ Definition op_ok (o : op) : bool :=
   | SetOption _ _ r _ | DelOption _ _ r => route_ok r
   | ReplaceComp s n new => is_comp s n new
   | Query p _ _ => plat_ok p
+  | LiveWrite _ _ _ _ | LiveVarWrite _ _ _ => false      (* on their own they are outside the interface *)
   | _ => true
+  end.
+
+(* the discipline under which live references to components are safe (the one conf.py follows when it expands the
+   references of the components in place): a write through a live reference to (s, n) is followed, before anything
+   else happens, by invalidate_cache_for_component((s, n)) *)
+Fixpoint ok_hist (ops : list op) : bool :=
+  match ops with
+  | [] => true
+  | LiveWrite s n r _ :: rest =>
+      match rest with
+      | Invalidate s' n' :: rest' => route_ok r && Z.eqb s s' && String.eqb n n' && ok_hist rest'
+      | _ => false
+      end
+  | o :: rest => op_ok o && ok_hist rest
   end.
 
 (* ------------------------------------------------------------------ correspondence checker *)
